@@ -85,7 +85,7 @@ class Report:
             if rid in wanted:
                 self.rules[rid] = txt
         for o in tmp.obligations:
-            if o.rule in wanted and (constructs is None or any(o.construct.startswith(c) for c in constructs)):
+            if o.rule in wanted and (constructs is None or (constructs(o.construct) if callable(constructs) else any(o.construct.startswith(c) for c in constructs))):
                 self.obligations.append(o)
         for n in tmp.notes:
             if any(n.startswith(r) for r in wanted):
